@@ -170,3 +170,42 @@ Example C04_legacy_nonvacuous :
   (* the unchecked partialArray.set on its own would panic: replace reaches it only after a get *)
   /\ con4_set (mkOpts4 false 0 None) (DAry []) (B "0") NNil = Panic.
 Proof. vm_compute. repeat split; reflexivity. Qed.
+
+(* ---- CreateMergePatch: the Go algorithm modelled statement by statement (CreateImpl.v) has explicit panic
+   outcomes — the default: branch of getDiff's type switch and a failed type assertion.  None of them is
+   reachable: on decoded JSON the type test before each assertion fixes the constructor, and no value has a
+   type outside the switch.  (api_create_go returns None for a panic.) ---- *)
+From JP Require Import Rfc7396 ImplMerge.
+From JP Require CreateImpl.
+
+Theorem C04_getDiff_never_panics : forall am bm,
+  CreateImpl.get_diff_go (OObj am) (OObj bm) <> CreateImpl.GoPanic.
+Proof. exact CreateImpl.get_diff_go_no_panic. Qed.
+Print Assumptions C04_getDiff_never_panics.
+
+Theorem C04_create_never_panics : forall a b,
+  (forall ta, parse a = Some ta -> tnodup ta = true) ->
+  (forall tb, parse b = Some tb -> tnodup tb = true) ->
+  CreateImpl.api_create_go a b = Some (api_create a b).
+Proof. exact CreateImpl.api_create_go_eq. Qed.
+Print Assumptions C04_create_never_panics.
+
+(* the legacy index methods as re-translated from the root patch.go: get, add and remove never reach a
+   panicking index or slice expression (arrays shorter than 2^63); set does exactly for idx >= len, and
+   replace asks get first (C18_replace_never_reaches_it) *)
+From JP Require IndexTie4.
+From JP.gen Require IndexGen4.
+Theorem C04_legacy_go_add_never_panics : forall neg len a keyeq,
+  (0 <= len < int64_max)%Z -> IndexTie4.atoi_ok4 a -> IndexGen4.idx4_add_gen neg len a keyeq <> IndexGen4.GPanic4.
+Proof. exact IndexTie4.add4_gen_never_panics. Qed.
+Print Assumptions C04_legacy_go_add_never_panics.
+
+Theorem C04_legacy_go_remove_never_panics : forall neg len a keyeq,
+  (0 <= len <= int64_max)%Z -> IndexTie4.atoi_ok4 a -> IndexGen4.idx4_remove_gen neg len a keyeq <> IndexGen4.GPanic4.
+Proof. exact IndexTie4.remove4_gen_never_panics. Qed.
+Print Assumptions C04_legacy_go_remove_never_panics.
+
+Theorem C04_legacy_go_get_never_panics : forall neg len a keyeq,
+  (0 <= len <= int64_max)%Z -> IndexTie4.atoi_ok4 a -> IndexGen4.idx4_get_gen neg len a keyeq <> IndexGen4.GPanic4.
+Proof. exact IndexTie4.get4_gen_never_panics. Qed.
+Print Assumptions C04_legacy_go_get_never_panics.
